@@ -171,14 +171,21 @@ def _model_run_func(
     """
     run_id, iteration, kwargs = run
     model = model_cls(**kwargs)
-    while model.running and model.steps <= max_steps:
+    while model.running and model.steps < max_steps:
         model.step()
 
     data = []
 
-    steps = list(range(0, model.steps, data_collection_period))
-    if not steps or steps[-1] != model.steps - 1:
-        steps.append(model.steps - 1)
+    # Report the steps at which data was actually collected: every
+    # data_collection_period-th step, and always the last collection
+    collected = list(dict.fromkeys(model.datacollector._collection_steps))
+    steps = [
+        step
+        for step in collected
+        if data_collection_period > 0 and step % data_collection_period == 0
+    ]
+    if collected and (not steps or steps[-1] != collected[-1]):
+        steps.append(collected[-1])
 
     for step in steps:
         model_data, all_agents_data = _collect_data(model, step)
